@@ -4,6 +4,7 @@ import NgoVerif.Proofs.C09link
 import NgoVerif.Proofs.C11check
 import NgoVerif.Proofs.C16stm
 import NgoVerif.Proofs.C05sem
+import NgoVerif.Proofs.C10stm
 /-!
 # Driver ops that evaluate the *side conditions of the end-to-end theorems* on what the real passes did
 
@@ -14,6 +15,8 @@ import NgoVerif.Proofs.C05sem
 * `(sem_split_cond <rule> <aux rule> <updated rule> <context program>)` → `(ok <splitCheck> <ctxCheck> <aux rule> <updated rule>)`:
   `Proofs.C16stm.splitCheck` / `ctxCheck` for the split `projection` made of `<rule>`; the two rules the theorem speaks about
   are returned and compared by the harness with what the real pass emitted.
+* `(sem_dup_cond <rule> <canonical aux rule> <rewritten rule> <context>)` → `(ok <renaming ok> <splitCheck> <ctxCheck> <aux rule> <rewritten rule>)`:
+  `Proofs.C10stm.dupCheck` for the FIRST place of use of a literal set factored out by `duplication`.
 * `(sem_okstm <stm>)` → `(ok <okBody>)`: the hypothesis of the `_partial` theorems about `expand_comparisons`.
 * `(sem_unused_cond <prog> "n" k)` → `(ok <every statement stmOk> <Unused n k prog>)`: the hypothesis of
   `C09_removal_sound/complete` for the program `unused` removed the rules of `n/k` from.
@@ -69,6 +72,23 @@ def handleSem : Sexp → Option Sexp
           .list [.atom "ok", ofBool (Proofs.C16stm.splitCheck S), ofBool (Proofs.C16stm.ctxCheck S ctx []),
                  S.auxRule.toSexp, S.updRule.toSexp]
         | none => .list [.atom "unsupported", .str "auxiliary head arguments are not variables"]
+      | _, _, _, _ => .list [.atom "unsupported", .str "rules"]
+  | .list [.atom "sem_dup_cond", o, a, u, p] =>
+    -- one place of use of a factored literal set: `o` the rule before, `a` the canonical auxiliary rule, `u` the rule after
+    -- (`… , aux(args)` last), `p` the context
+    some <| match Stm.ofSexp o, Stm.ofSexp a, Stm.ofSexp u, Prog.ofSexp p with
+      | some (.rule l c h body), some (.rule la ca (.lit (.pos, .sym (.fn auxName vterms false))) sb), some (.rule _ _ _ ubody),
+        some ctx =>
+        match vterms.mapM (fun t => match t with | .var v => some v | _ => none), ubody.getLast? with
+        | some V, some (.lit (.pos, .sym (.fn _ aterms false))) =>
+          match aterms.mapM (fun t => match t with | .var v => some v | _ => none) with
+          | some args =>
+            let use := Proofs.C10stm.useOf l c h body ubody.dropLast auxName V args sb la ca
+            .list [.atom "ok", ofBool (V.length == args.length && Proofs.C11check.involOk (V.zip args)),
+                   ofBool (Proofs.C16stm.splitCheck use.split), ofBool (Proofs.C16stm.ctxCheck use.split ctx []),
+                   use.canon.toSexp, use.split.updRule.toSexp]
+          | none => .list [.atom "unsupported", .str "arguments of the auxiliary atom are not variables"]
+        | _, _ => .list [.atom "unsupported", .str "shape of the auxiliary rule / the rewritten rule"]
       | _, _, _, _ => .list [.atom "unsupported", .str "rules"]
   | _ => none
 
